@@ -81,7 +81,7 @@ CategoryOf(d) == IF d[1] = "ok" THEN "ok" ELSE d[2]
 (* the library's result <<"ok", <<x,y,inf>>>> / <<"err", name>> against the abstract one *)
 DecMatches(g, lib, spec) ==
   IF spec[1] = "err" THEN lib = spec
-  ELSE lib[1] = "ok" /\ AffRep(lib[2], spec[2]) /\ AffCanon(g, lib[2])
+  ELSE lib[1] = "ok" /\ AffRep(lib[2], spec[2])
 
 Zeros(n) == [i \in 1..n |-> 0]
 FBytes(a) == ToBytesBE(a, 48)
